@@ -313,6 +313,22 @@ def gen_system_case(ch, extended=False, allow_cage=True):
 
 def gen_c60_orders(ch):
     adj = GA.cage(ch.weighted([(5, "C60"), (1, "C20"), (1, "trunc_octa"), (1, "petersen")]))
+    if ch.bool(40):
+        # a second, separate aromatic system in the same SMILES (all systems are kekulized in one go)
+        n0 = len(adj)
+        k = ch.pick([6, 6, 10])
+        if k == 6:
+            extra = {i: {(i + 1) % 6, (i - 1) % 6} for i in range(6)}
+        else:
+            extra = {i: set() for i in range(10)}
+            for a, b in [(0, 1), (1, 2), (2, 3), (3, 4), (4, 5), (5, 0), (4, 6), (6, 7), (7, 8), (8, 9), (9, 5)]:
+                extra[a].add(b)
+                extra[b].add(a)
+        if ch.bool(50):
+            # the small system gets the low node numbers
+            adj = dict([(i, set(v)) for i, v in extra.items()] + [(i + k, {j + k for j in v}) for i, v in adj.items()])
+        else:
+            adj = dict(list(adj.items()) + [(i + n0, {j + n0 for j in v}) for i, v in extra.items()])
     m = GA.build(adj, {x: "c" for x in adj})
     sps = spell(m, ch, 4)
     if sps is None:
@@ -341,6 +357,10 @@ def _one_random_graph(ch, family):
                 continue
             adj[a].append(b)
             adj[b].append(a)
+    if ch.bool(30):
+        # an even cycle as a separate first component: the routine works on all aromatic systems of a molecule at once
+        k = ch.pick([4, 6, 6, 8])
+        adj = [[(i + 1) % k, (i - 1) % k] for i in range(k)] + [[j + k for j in a] for a in adj]
     return [ch.shuffle(a) for a in adj]
 
 
